@@ -208,6 +208,11 @@ func (w *Walk) pickDest(from []byte) []byte {
 		}
 	}
 	_ = r
+	for _, d := range u.Actors {
+		if !bytes.Equal(d, from) {
+			return d
+		}
+	}
 	return u.Actors[0]
 }
 
@@ -427,6 +432,9 @@ func (w *Walk) opSystem() *node.Leg {
 		}
 		cur := w.creator[tok]
 		next := w.pickDest(cur)
+		if bytes.Equal(cur, next) {
+			return nil // T5: never to the current holder itself
+		}
 		l := u.HandOver(cur, next, t.ID)
 		if l.OK {
 			w.creator[tok] = next
